@@ -6,10 +6,16 @@ G: the same module with Emit=TRUE prints every (curve, knee list) with the expec
    functions for the fixed thresholds plus every IoU value of the curve (exact ties); replayed into
    postprocessing.filter_worst_knees / filter_corner_knees / select_corner_knees, each applied twice.
 T: random real-valued curves: exact height ranks + per-knee IoU classes from knee_ranking.rect_overlap
-   (bit-exact comparison with t, thresholds harvested from observed IoU values) judged by Trace_Filters."""
+   (bit-exact comparison with t, thresholds harvested from observed IoU values) judged by Trace_Filters.
+S: the "scale" family - production-size calls (257 .. 7*10^4 knees on curves of 257 .. 1.1*10^5 points, several shapes and
+   knee layouts, thresholds 0.33 / 0 / 1 / 0.5 / harvested ties, float64 and int64 data) under the loop-budget monitor,
+   judged by Trace_FiltersScale (the same property-level operators, SPARSE tables: height ranks and IoU classes of the
+   knees only; nothing is indexed by the points of the curve)."""
+import random
+
 import numpy as np
 
-from harness import curves, numeric, par, tlc
+from harness import curves, monitor, numeric, par, scale, tlc
 
 FW, FC, SC = "filter_worst_knees", "filter_corner_knees", "select_corner_knees"
 
@@ -171,17 +177,295 @@ def _report(ctx, seen, clause, case, detail, limit=2):
         ctx.violation(clause, case, detail)
 
 
+# --------------------------------------------------------------------------- S (scale)
+# A case is a RECIPE (shape, n, curve seed, layout, m, knee seed, variant, thresholds): curve and knee list are deterministic
+# functions of it, so a replay file stays a few hundred bytes however long the call is.
+S_SHAPES = ("plateau-stairs", "walk", "staircase", "droughts", "noisy-descent", "mrc", "spikes", "convex")
+S_INTEGRAL = ("walk", "staircase", "droughts", "convex")          # integral coordinates: also replayed as int64 data
+S_LAYOUTS = ("random+ends", "mixed", "random", "run", "all")
+# (knee-count threshold straddled, span of m as a multiple of it, combos, thresholds t per combo); 0 thresholds: the height
+# filter alone on a dense knee list of a non-monotone curve (long stretches of dropped knees between the kept ones)
+S_CLASSES_QUICK = ((256, 3.0, 20, 3), (1024, 2.0, 8, 2), (4096, 1.2, 3, 2), (16384, 1.04, 1, 1), (4096, 3.0, 4, 0))
+S_CLASSES_THOROUGH = ((256, 4.0, 30, 3), (1024, 3.0, 20, 3), (4096, 2.0, 8, 2), (10000, 1.2, 4, 2), (16384, 1.2, 4, 2),
+                      (32768, 1.1, 2, 1), (65536, 1.05, 1, 1), (4096, 4.0, 6, 0), (32768, 2.0, 2, 0))
+S_DENSE = (("droughts", "all"), ("walk", "run"), ("droughts", "run"), ("noisy-descent", "all"))
+S_TSPECS = (["q", 0.5], 0.5, ["q", 0.9], 0.0, ["q", 0.1], 1.0, ["q", 0.7], 0.25)
+S_WORST = ("running-minimum", "tie-kept", "idempotent(%s)" % FW)
+
+
+class _Stop(Exception):
+    pass
+
+
+def _s_curve(shape, n, cs):
+    """One production-size curve: float64 (n, 2), x strictly increasing, y >= 0."""
+    g = np.random.default_rng(cs)
+    i = np.arange(n, dtype=float)
+    if shape == "plateau-stairs":     # non-increasing, every second step flat (equal heights: zero-overlap knees) mixed with
+        drop = g.exponential(1.0, n) * (g.random(n) < 0.5)            # drops of all sizes (corners); normalised real heights
+        y = np.cumsum(drop[::-1])[::-1]
+        return np.ascontiguousarray(np.column_stack([i, y / max(y[0], 1.0)]))
+    if shape == "staircase":          # integer plateaus of width 4..8 separated by sharp drops
+        return scale.staircase(n, max(2, n // int(g.integers(4, 9))), rng=random.Random(cs))
+    if shape == "mrc":                # convex decay pieces + cliffs, flat tail
+        return scale.mrc(n, random.Random(cs), knees=8)
+    if shape == "spikes":             # zero line (all ties) with growing spikes
+        return scale.spikes(n, period=int(g.integers(3, 7)))
+    if shape == "convex":             # increasing: only the first knee survives the height filter
+        return scale.convex_pl(n, max(1, n // 16))
+    if shape == "walk":               # non-monotone integer walk with ties, uneven integer spacing
+        x = np.cumsum(g.integers(1, 5, n)).astype(float)
+        y = np.cumsum(g.integers(-3, 4, n)).astype(float)
+        return np.ascontiguousarray(np.column_stack([x, y - y.min()]))
+    if shape == "droughts":           # short descents to new record lows (in tied pairs) separated by stretches - a few to n/3
+        y, lo, a = np.empty(n), 0.0, 0                                  # points long - that stay above the lowest so far
+        while a < n:
+            L = min(n - a, int(g.integers(8, max(9, n // 3)) if g.random() < 0.3 else g.integers(8, 200)))
+            d = min(L, max(2, L // 8))
+            y[a:a + d] = lo - np.floor(np.arange(1, d + 1) / 2.0)
+            lo = y[a + d - 1]
+            y[a + d:a + L] = lo + 1.0 + np.floor(g.random(L - d) * 50.0)
+            a += L
+        return np.ascontiguousarray(np.column_stack([i, y - y.min()]))
+    if shape == "noisy-descent":      # slow real-valued descent under noise: record lows scattered over the whole list
+        x = np.cumsum(g.uniform(0.5, 1.5, n))
+        y = 40.0 * (1.0 - i / n) + g.random(n)
+        return np.ascontiguousarray(np.column_stack([x, y]))
+    raise ValueError(shape)
+
+
+def _s_knees(layout, P, m, ks):
+    """An ascending duplicate-free knee list of (about) m knees."""
+    n = len(P)
+    r = random.Random(ks)
+    m = min(m, n)
+    if layout == "all" or m == n:
+        return list(range(n))
+    if layout == "run":               # one contiguous block, at the left end / at the right end / somewhere
+        a = r.choice([0, n - m, r.randrange(0, n - m + 1)])
+        return list(range(a, a + m))
+    if layout == "mixed":             # half of the knees where the height changes (corners), the rest anywhere
+        y = P[:, 1]
+        ch = np.flatnonzero((y[1:-1] != y[2:]) | (y[1:-1] != y[:-2])) + 1
+        pick = set(r.sample([int(v) for v in ch], min(len(ch), m // 2)))
+        rest = [k for k in r.sample(range(n), min(n, m + len(pick))) if k not in pick]
+        return sorted(pick | set(rest[:m - len(pick)]))
+    ks_ = set(r.sample(range(n), m))
+    if layout == "random+ends":
+        ks_ |= {0, n - 1}
+    return sorted(ks_)
+
+
+def _s_call(fn, P, knees, *a):
+    """One library call under the back-edge budget (quadratic in the input length: a hang detector only) and the CPU watchdog."""
+    out, val, _ = monitor.call(fn, (P, _karr(knees)) + a, budget=monitor.quad(len(P) + len(knees) + 64, 8),
+                               wall=120 + len(knees) // 50)
+    if out != "returned":
+        raise _Stop("%s: %s" % (fn.__name__, out.split(":")[-1]))
+    return _ints(val)
+
+
+def _s_twice(fn, P, knees, *a):
+    r1 = _s_call(fn, P, knees, *a)
+    return r1, _s_call(fn, P, r1, *a)
+
+
+def _s_record(rc):
+    """recipe -> (sparse TLC case, resolved thresholds, statistics)."""
+    import kneeliverse.postprocessing as pp
+    P = _s_curve(rc["shape"], rc["n"], rc["cs"])
+    knees = _s_knees(rc["layout"], P, rc["m"], rc["ks"])
+    if rc["variant"] == "int64":
+        P = np.ascontiguousarray(P.astype(np.int64))
+    n, m = len(P), len(knees)
+    iou = [(_iou(P, k) if 0 < k < n - 1 else None) for k in knees]
+    obs = sorted(set(v for v in iou if v is not None and v > 0.0))
+    ts = []
+    for spec in rc["ts"]:             # ["q", f]: the f-quantile of the distinct positive IoU values of these knees (an exact tie)
+        if isinstance(spec, (list, tuple)):
+            ts.append(obs[min(len(obs) - 1, int(spec[1] * len(obs)))] if obs else 0.25)
+        else:
+            ts.append(float(spec))
+    c = {"id": rc["id"], "kind": "c13s", "n": n, "knees": knees, "raised": "", "worst": [], "worst2": [], "ts": [],
+         "kh": numeric.ranks(np.asarray(P[knees, 1], float), rel=0.0, ab=0.0)}
+    st = {"n": n, "m": m, "nt": [], "ties": 0, "zero": sum(1 for v in iou if v == 0.0), "kept": 0}
+    try:                              # a call that does not complete is a verdict of its own part only
+        c["worst"], c["worst2"] = _s_twice(pp.filter_worst_knees, P, knees)
+        st["kept"] = len(c["worst"])
+    except _Stop as ex:
+        c["raised"] = str(ex)
+    for t in ts:
+        r = {"t": repr(float(t)), "raised": "", "cls": [0 if v is None else (1 if v < t else 2) for v in iou],
+             "filt": [], "filt2": [], "sel": [], "sel2": []}
+        try:
+            r["filt"], r["filt2"] = _s_twice(pp.filter_corner_knees, P, knees, t)
+            r["sel"], r["sel2"] = _s_twice(pp.select_corner_knees, P, knees, t)
+        except _Stop as ex:
+            r["raised"] = str(ex)
+        c["ts"].append(r)
+        st["ties"] += sum(1 for v in iou if v == t)
+        st["nt"].append(m >= 2 and (len(c["worst"]) < m or any(v is not None for v in iou)))
+    return c, [float(t) for t in ts], st
+
+
+def _s_plan(ctx):
+    """The recipes of one run: knee counts straddling 256 / 1024 / 4096 / 10^4 / 16384 / 32768 / 65536, curve lengths from
+    scale.sizes (just above 256 .. 10^5), shapes and layouts in rotation, thresholds 0.33 + a rotation of specials and ties."""
+    rng = ctx.rng
+    ns = scale.sizes(ctx, lo=257, hi=110000, k_quick=8, k_thorough=16)
+    out = []
+    o1, o2, o3 = rng.randrange(len(S_SHAPES)), rng.randrange(len(S_LAYOUTS)), rng.randrange(len(S_TSPECS))
+    for thr, span, cnt, nts in (S_CLASSES_QUICK if ctx.quick else S_CLASSES_THOROUGH):
+        for j in range(cnt):
+            k = len(out)
+            m = thr + 1 + (rng.randrange(0, max(2, thr // 16)) if j % 2 == 0 else rng.randrange(0, max(2, int(thr * (span - 1)))))
+            shape = S_SHAPES[(k + o1) % len(S_SHAPES)]
+            layout = S_LAYOUTS[(k // 2 + k + o2) % len(S_LAYOUTS)]
+            if nts == 0:
+                shape, layout = S_DENSE[(j + o1) % len(S_DENSE)]
+            if layout == "all" and m > 20000:
+                layout = "run" if nts == 0 else "random+ends"
+            fit = [n for n in ns if n >= m + 2]
+            n = m if layout == "all" else rng.choice(fit or [m + 2 + rng.randrange(0, 5000)])
+            variant = "int64" if shape in S_INTEGRAL and rng.random() < 0.5 else "float64"
+            ts = [0.33][:nts] + [S_TSPECS[(o3 + 3 * k + q) % len(S_TSPECS)] for q in range(nts - 1)]
+            out.append({"id": "s%d" % k, "shape": shape, "n": n, "cs": rng.randrange(1 << 30), "layout": layout, "m": m,
+                        "ks": rng.randrange(1 << 30), "variant": variant, "ts": ts})
+    return out
+
+
+def _s_static():
+    """binding self-tests of Trace_FiltersScale: the static small case (declarative RunMin path) and a 1300-knee staircase of
+    pairwise ties (scan path), each with corruptions that must be rejected under the right clause."""
+    c = {"kind": "c13s", "n": 5, "knees": [0, 1, 2, 3, 4], "raised": "", "kh": [3, 1, 2, 1, 0],
+         "worst": [0, 1, 3, 4], "worst2": [0, 1, 3, 4],
+         "ts": [{"t": "0.33", "raised": "", "cls": [0, 1, 2, 2, 0], "filt": [0, 1, 4], "filt2": [0, 1, 4], "sel": [2, 3], "sel2": [2, 3]}]}
+
+    def T(**kw):
+        return dict(c, ts=[dict(c["ts"][0], **kw)])
+    m = 1300
+    K = list(range(10, 10 + 3 * m, 3))
+    drop = [k for k in K if k != K[1002]]                                # position 1002 ties with 1001, position 701 does not
+    big = {"kind": "c13s", "n": 5000, "knees": K, "raised": "", "kh": [(m - p) // 2 for p in range(m)], "worst": K, "worst2": K,
+           "ts": [{"t": "0.5", "raised": "", "cls": [1 + (p % 3 == 0) for p in range(m)], "filt": [k for p, k in enumerate(K) if p % 3],
+                   "filt2": [k for p, k in enumerate(K) if p % 3], "sel": K[::3], "sel2": K[::3]}]}
+    return [(c, "ok"), (big, "ok"),
+            (dict(c, worst=[0, 1, 4], worst2=[0, 1, 4]), "tie-kept"),
+            (dict(c, worst=[0, 1, 2, 3, 4], worst2=[0, 1, 2, 3, 4]), "running-minimum"),
+            (dict(c, worst2=[0, 1, 4]), "idempotent(%s)" % FW),
+            (T(filt=[1, 4], filt2=[1, 4]), "ends-kept"),
+            (T(filt=[0, 1, 2, 4], filt2=[0, 1, 2, 4]), "partition"),
+            (T(filt=[0, 4], filt2=[0, 4], sel=[1, 2, 3], sel2=[1, 2, 3]), "corner-split(%s)" % FC),
+            (T(sel=[3, 2], sel2=[3, 2]), "order-preserved"),
+            (T(sel2=[3]), "idempotent(%s)" % SC),
+            (dict(c, raised="filter_worst_knees: budget"), "completes"),
+            (T(raised="filter_corner_knees: OverflowError"), "completes"),
+            (dict(c, worst=[0, 1, 4], worst2=[0, 1, 4], ts=T(raised="select_corner_knees: watchdog")["ts"]), "tie-kept"),
+            (dict(big, worst=drop, worst2=drop), "tie-kept"),
+            (dict(big, worst=K[:701] + K[702:], worst2=K[:701] + K[702:]), "running-minimum"),
+            (dict(big, ts=[dict(big["ts"][0], sel=K[3::3], sel2=K[3::3])]), "corner-split(%s)" % SC)]
+
+
+def _s_verdicts(ctx, rej, recipes, seen):
+    for cid, vs in rej.items():
+        rc = recipes[cid]
+        for v in vs:
+            if v[0] == "spec-scan":
+                raise tlc.TLCFailure("Trace_FiltersScale: the linear scan and the declarative RunMin disagree on %s" % cid)
+            ts = [] if v[0] in S_WORST or v[0] == "completes" and len(v) == 2 else [float(v[1])]
+            case = {"kind": "S", "recipe": dict(rc, ts=ts)}
+            _report(ctx, seen, v[0], case, _s_detail(v, rc))
+
+
+def _s_pack(cases, nself, limit=1200000, maxruns=8):
+    """Order the cases so that ctx.trace's contiguous chunks (the self-tests are prepended to the first one) become TLC runs of
+    about equal JSON size, each at most ~`limit` bytes where the case sizes allow it: returns (ordered cases, chunk length,
+    bytes of the largest run)."""
+    import json
+    size = {c["id"]: len(json.dumps(c)) for c in cases}
+    k = max(1, min(maxruns, len(cases), -(-sum(size.values()) // limit)))
+    g = -(-(len(cases) + nself) // k)
+    while k > 1 and (g <= nself or (k - 1) * g >= len(cases) + nself):     # every run must get at least one recorded case
+        k -= 1
+        g = -(-(len(cases) + nself) // k)
+    cap = [g - nself if j == 0 else g for j in range(k)]
+    cap[-1] = len(cases) - sum(cap[:-1])
+    bins, load = [[] for _ in range(k)], [0] * k
+    for c in sorted(cases, key=lambda c: -size[c["id"]]):                  # longest first into the lightest run with room
+        j = min((j for j in range(k) if len(bins[j]) < cap[j]), key=lambda j: load[j])
+        bins[j].append(c)
+        load[j] += size[c["id"]]
+    return [c for b_ in bins for c in b_], g, max(load)
+
+
+def _s_detail(v, rc):
+    d = {"n": rc["n"], "knees": rc["m"], "shape": rc["shape"], "layout": rc["layout"], "variant": rc["variant"], "verdict": v}
+    body = v[1:]
+    if v[0] not in S_WORST and not (v[0] == "completes" and len(v) == 2):
+        d["t"], body = body[0], body[1:]
+    if len(body) == 5:            # Brief(a, b): lengths and the first position (1-based) where the two lists differ
+        a, b = ("once", "twice") if v[0].startswith("idempotent") else ("returned", "expected")
+        d.update({a + "_length": body[0], b + "_length": body[1],
+                  "first_difference": {"position": body[2], a: body[3], b: body[4]}})
+    return d
+
+
+def _scale(ctx, seen):
+    plan = _s_plan(ctx)
+    plan.sort(key=lambda rc: -rc["m"] * (0.2 + len(rc["ts"])))                 # longest first: the pool stays busy
+    res = par.pmap(_s_record, plan, chunksize=1)
+    recipes = {}
+    for rc, (c, ts, st) in zip(plan, res):
+        recipes[rc["id"]] = dict(rc, ts=ts)                            # thresholds resolved: the recipe is self-contained
+    cases = [c for c, _, _ in res]
+    stc = _s_static()
+    ordered, chunk, biggest = _s_pack(cases, len(stc))
+    rej = ctx.trace("Trace_FiltersScale", ordered, selftest=stc, chunk=chunk, procs=8)
+    for rc, (c, ts, st) in zip(plan, res):
+        for t, nt in zip(ts, st["nt"]):
+            ctx.count(("S", rc["id"], rc["shape"], rc["layout"], rc["n"], rc["m"], t), nt)
+    _s_verdicts(ctx, rej, recipes, seen)
+    ms = sorted(st["m"] for _, _, st in res)
+    by = lambda key: {v: sum(1 for rc in plan if rc[key] == v) for v in sorted(set(rc[key] for rc in plan))}
+    ctx.extra["scale"] = {
+        "calls_recorded": len(plan), "thresholds_judged": sum(len(ts) for _, ts, _ in res),
+        "knees_per_call": {"min": ms[0], "median": ms[len(ms) // 2], "max": ms[-1],
+                           "above": {str(t): sum(1 for v in ms if v > t) for t in (256, 1024, 4096, 10000, 16384, 32768, 65536)}},
+        "points_per_curve": sorted(set(st["n"] for _, _, st in res)),
+        "shapes": by("shape"), "layouts": by("layout"), "variants": by("variant"),
+        "zero_overlap_knees": sum(st["zero"] for _, _, st in res), "exact_iou_ties": sum(st["ties"] for _, _, st in res),
+        "knees_dropped_by_height_filter": sum(st["m"] - st["kept"] for _, _, st in res),
+        "did_not_complete": sum(bool(c["raised"]) + sum(1 for r in c["ts"] if r["raised"]) for c in cases),
+        "largest_tlc_input_bytes": biggest, "tlc_runs": -(-(len(cases) + len(stc)) // chunk)}
+    big = max(zip(plan, res), key=lambda z: z[1][2]["m"])
+    ctx.sample({"binding": "S", "recipe": recipes[big[0]["id"]], "n": big[1][2]["n"], "knees": big[1][2]["m"],
+                "kept_by_height_filter": big[1][2]["kept"], "zero_overlap_knees": big[1][2]["zero"],
+                "corner_outputs": [{"t": r["t"], "filter": len(r["filt"]), "select": len(r["sel"])} for r in big[1][0]["ts"]]})
+    ctx.note("scale family: every clause of the property is judged (the rule, partition, ends, order, idempotence of the three "
+             "functions); nothing was left out.  Height ranks are exact (no noise merging) and IoU classes are bit-exact "
+             "comparisons of the library's own rect / rect_overlap with t, as for the small inputs, so no tolerance grows with n.")
+
+
 def run(ctx):
     ctx.rule = ("G: every curve x = 0..n-1 (thorough: also uneven integer spacings), n <= NMax, y in 0..3, every ascending "
                 "knee list (n <= 5; small/full/alternating lists for n = 6), thresholds {0,1/4,1/3,1/2,1} plus every IoU value of "
                 "the curve; each function applied twice.  T: random / MRC-like / bundled-trace curves with random knee lists, "
                 "thresholds 0.33 + harvested IoU values.  non-trivial: >= 2 knees and (a knee is dropped by the height filter, "
-                "or a knee with both neighbours is classified)")
+                "or a knee with both neighbours is classified).  S (scale): production-size calls - 257 .. 17 500 knees (thorough: "
+                ".. 70 000; counts straddling 256 / 1024 / 4096 / 10^4 / 16384 / 32768 / 65536) on curves of 257 .. 1.1*10^5 points "
+                "(plateau staircases with zero-overlap knees mixed with corners, integer walks, record lows after long droughts, noisy "
+                "descents, MRC-like, spikes, "
+                "convex; random / with both ends / contiguous / corner-rich / every-point knee lists; float64 and int64; t = 0.33 "
+                "plus 0, 1, 1/2, 1/4 and harvested exact ties), each function applied twice under the loop-budget monitor and "
+                "judged for every clause by Trace_FiltersScale with tables over the knees only")
     ctx.assumptions += [
         "G domain: small integer coordinates; t = float(p/q) - one correctly rounded division decides like the rational",
         "T: heights are compared exactly (dense ranks without noise merging); IoU classes are bit-exact comparisons of "
         "knee_ranking.rect_overlap(rect((x0,y2),p1), rect(p0,p2)) with t (the primitives themselves are C17's business)",
-        "knee lists are ascending and duplicate-free; the empty list is included"]
+        "knee lists are ascending and duplicate-free; the empty list is included",
+        "S: same policy as T at production size - exact height ranks of the knees, bit-exact IoU classes from the library's own "
+        "primitives on the array that is passed to the call; the linear prefix-minimum scan used above 1200 knees is ASSUMEd "
+        "equal to the declarative RunMin on all height tables over 0..2 of length <= 6 and re-compared on every case below"]
     ctx.mc("Gen_Filters", "MC_Filters_strict", expect="MachineIsRunMin")
     ctx.mc("Gen_Filters", "MC_Filters_stale", expect="MachineIsRunMin")
     ctx.mc("Gen_Filters", "MC_Filters", need_actions=("WorstKeep", "WorstDrop", "Return"))
@@ -216,10 +500,12 @@ def run(ctx):
         _, pts, knees, t = meta[cid]
         for v in vs:
             _report(ctx, seen, v[0], {"kind": "T", "points": pts, "knees": knees, "t": t}, {"verdict": v})
-    ctx.extra["violating_cases_by_clause"] = dict(seen)
     big = max(cases, key=lambda c: (len(set(c["cls"])), len(c["knees"]) - len(c["worst"])) if c["n"] <= 12 else (0, 0))
     ctx.sample({"binding": "T", "call": {"points": meta[big["id"]][1], "knees": big["knees"], "t": meta[big["id"]][3]},
                 "case": big})
+    # ---- S
+    _scale(ctx, seen)
+    ctx.extra["violating_cases_by_clause"] = dict(seen)
 
 
 def replay(ctx, obj):
@@ -227,6 +513,10 @@ def replay(ctx, obj):
     if case["kind"] == "G":
         for clause, detail in _replay_line(case["behaviour"]):
             ctx.violation(clause, case, detail)
+    elif case["kind"] == "S":
+        rc = dict(case["recipe"], id="replay")
+        c, ts, _ = _s_record(rc)
+        _s_verdicts(ctx, ctx.trace("Trace_FiltersScale", [c]), {"replay": dict(rc, ts=ts)}, {})
     else:
         c = _record(("replay", case["points"], case["knees"], case["t"]))
         rej = ctx.trace("Trace_Filters", [c])
